@@ -47,6 +47,13 @@ def gen_ops(tier, rng):
             if d * p * size > 6_000_000:
                 d, p = 3, 2
             enc(rng.choice(fams6), o, d, p, size, "enc-threshold")
+    # every generated-kernel shape (1..10 inputs x 1..10 outputs) with shards well above minSplitSize: the codec calls each
+    # kernel on worker windows with a non-zero start offset
+    kopts = ["-", "gfni-", "gfni-,avxgfni-"]
+    for d in range(1, 11):
+        for p in range(1, 11):
+            for o in (kopts if tier == "thorough" else [kopts[(d + p) % 3]]):
+                enc(rng.choice(["default", "cauchy"]), o, d, p, 40000 + 64 * rng.randint(0, 40) + rng.choice([0, 0, 13]), "enc-kernel-windows")
     for tail in range(64):
         enc("default", rng.choice(OPTSETS), 10, 4, 4096 + tail, "enc-tail")
         enc("cauchy", rng.choice(OPTSETS), 3, 11, 1024 + tail, "enc-tail")
